@@ -119,6 +119,15 @@ CLAIMED = {
         'AggregateResult, workers released); merge_states(strict_states_cnt) is checked for all (given, expected) in 0..4 x 0..4.',
         'In-process transport; real threads and event loops, so schedules are sampled, not enumerated.',
         '5/C16'),
+    'C14': (
+        'TLA+ spec Remote.tla (server object table, references, Call/Handle/Ret per request, concurrent clients, shutdown window) model-checked by TLC; single-client behaviours replayed on the real CourierServer/CourierClient/RemoteObject/RemoteIterator next to a local twin; LazyEval.tla expression universe evaluated through the client; concurrent executions recorded and validated by TLC against Trace_Remote.tla',
+        'TLC checks for two concurrent clients that only values/exceptions/references travel, a remote iterator hands out each element exactly once, gap-free and in order per client, '
+        'exhaustion is stable and only at the end, server-side state is shared (linearizable counter), errors in the shutdown window are the retriable TimeoutError and every request is answered. '
+        'Every single-client behaviour is executed on the real code and each answer compared with the spec and with the same operation on a local object (value, or exception type and message); '
+        'every expression of the LazyEval universe is evaluated remotely and locally (value/exception and number of evaluations); 30-200 recorded executions of 2-3 client threads sharing '
+        'references, with a shutdown at a random point, are accepted by TLC only if some placement of the unlogged linearization points explains every logged answer, all invariants evaluated at every step.',
+        'In-process transport (pickling on every call, handlers on a thread pool); 2 clients x 4-5 calls exhaustive; object kinds box/counter/list/iterator; a stopped server is outside the statement.',
+        '5/C14'),
 }
 
 PENDING = {}
